@@ -138,4 +138,9 @@ class MetaRunner(object):
             await runner.aclose()
         # wait until runners are closed
         await asyncio.gather(*runner_tasks, return_exceptions=True)
-        self._runners.clear()
+        # unpublish the runners and leave the running state in one step: a payload
+        # registered in between would neither find a runner nor be queued, but
+        # fail with "unknown runner" while payloads may still finish their cleanup
+        with self._queue_lock:
+            self._runners.clear()
+            self.running.clear()
